@@ -34,7 +34,52 @@ def run(ck):
     dec, sig = P.fn(PR + 'decode'), P.fn(PR + 'decode_signed')
     for f in (dec, sig):
         ck.touch(f)
-    sites, info = analyse(P, [(dec, None, None), (sig, None, None)], inline=lambda q: q.startswith(PR))
+    from sa.absint2 import Analyzer, summarize
+    sites, info = {}, {'throws': [], 'entries': [], 'unsupported': []}
+    length_dependent = []
+    n_access = 0
+    for entry in (dec, sig):
+        an = Analyzer(P, inline=lambda q: q.startswith(PR))
+        an.watch_access = lambda b: b.startswith('buf_buffer')
+        rets = an.run(entry)
+        info['throws'] += an.throws
+        info['unsupported'] += an.unsupported
+        info['entries'].append({'entry': entry.name, 'return_states': len(rets), 'obligation_instances': len(an.obls)})
+        for key, e in summarize(an).items():
+            cur = sites.get(key)
+            if cur is None:
+                sites[key] = e
+            else:
+                cur['n'] += e['n']
+                cur['failed'] += e['failed']
+        # prefix property: where a field is read never depends on how long the input is (bytes appended to a message
+        # must not change what is decoded from it); the only length-relative reads are the trailing MAC of decode_signed
+        in_buf = an.param_values[0]
+        len_syms = an_len_syms(in_buf)
+        for a in an.access_log:
+            if a['fn'].q == sig.q:
+                continue          # decode_signed splits off the 32-byte tag at the end by design
+            n_access += 1
+            if a['off'].syms() & len_syms:
+                length_dependent.append(a)
+    # the MAC primitive the signed decoder relies on, for every key / message / tag length (Sha256 itself is C08's subject)
+    CR = 'ephemeralnet::crypto::'
+    for name in ('verify', 'compute'):
+        an = Analyzer(P, inline=lambda q: q.startswith(CR + 'HmacSha256') or q.endswith('constant_time_equal'))
+        an.run(P.fn(CR + 'HmacSha256::' + name))
+        info['throws'] += an.throws
+        for key, e in summarize(an).items():
+            cur = sites.get(key)
+            if cur is None:
+                sites[key] = e
+            else:
+                cur['n'] += e['n']
+                cur['failed'] += e['failed']
+    ck.floor('C16.prefix', 'reads of the input buffer in decode', n_access, 20)
+    ld = length_dependent[0] if length_dependent else None
+    ck.ob('C16.prefix', 'C16.prefix/read-positions-independent-of-length', ld is None, ld['fn'].loc(ld['node']) if ld else dec.loc(),
+          'no field of a plain message is read at a position computed from the input length (re-encoding a decoded message reproduces a prefix of the '
+          'input)%s' % ('' if ld is None else ' — %s at offset %r' % (ld['what'], ld['off'])))
     for f, n, t in sorted({(f, n, t) for f, n, t in info['throws']}, key=lambda x: (x[0].q, x[1])):
         ck.ob('C16.throw', 'C16.throw/%s' % short(f.q).split('::')[-1], False, f.loc(n), 'throw of %s reachable from protocol decoding' % t)
     for key, e in sites.items():
@@ -139,3 +184,9 @@ def _is_zero_compare(f, i):
     while p is not None and f.nodes[p]['k'] in ('ImplicitCastExpr', 'ParenExpr'):
         p = f.parent(p)
     return p is not None and f.nodes[p].get('op') in ('!=', '==')
+
+
+def an_len_syms(v):
+    """Symbols of the length of an input view."""
+    ln = getattr(v, 'length', None)
+    return set(ln.syms()) if ln is not None and hasattr(ln, 'syms') else set()
